@@ -89,6 +89,8 @@ def scenarios(tier, seed):
                     "plain_term": r.choice(["default", "trap"]),
                     "pidfile_in": r.choice(["argv", "ini"]),
                     "unix_replace": r.random() < 0.3,
+                    # the managed unix socket as a datagram socket (bound, never listening): its file is the daemon's too
+                    "unix_dgram": (i % 3 == 2),
                     # where inside the window (fraction); never asserted, the probes say what was hit
                     "offset": round(r.uniform(0.15, 0.55), 2)})
     return scs
@@ -103,6 +105,8 @@ def make_ini(d, sc, port):
         lines.append("pidfile = %s/circusd.pid" % d)
     lines += ["", "[socket:inet]", "host = 127.0.0.1", "port = %d" % port,
               "", "[socket:unix]", "path = %s/m.sock" % d]
+    if sc.get("unix_dgram"):
+        lines.append("type = SOCK_DGRAM")
     if sc["unix_replace"]:
         lines.append("replace = True")
     lines += ["", "[watcher:stub]",
@@ -220,7 +224,7 @@ class ShutdownRun(object):
     def identify_boot(self):
         dfd = self.daemon.fds()
         tcp = livelib.tcp_listeners()
-        unx = livelib.unix_listeners()
+        unx = livelib.unix_bound() if self.sc.get("unix_dgram") else livelib.unix_listeners()
         b = {"inet": None, "unix": None}
         for fd, t in dfd.items():
             ino = livelib.socket_inode(t)
@@ -403,7 +407,7 @@ class ShutdownRun(object):
         if os.path.lexists(path):
             left.append({"what": "unix_path", "detail": "managed unix socket path %s still exists" % path})
         tcp = livelib.tcp_listeners()
-        unx = livelib.unix_listeners()
+        unx = livelib.unix_bound() if self.sc.get("unix_dgram") else livelib.unix_listeners()
         pr = livelib.probe_inet(self.port)
         self.res["inet_probe_after_exit"] = pr
         self.res["managed_inodes_seen"] = dict((k, sorted(v)) for k, v in self.managed.items())
